@@ -24,6 +24,8 @@ PROP = {
         inst(F, "c11_matches_eq_spec", Q, "any filter (literal criteria) x any message", "matches == conjunction of specified criteria, negation, no-ext-header rule", covers=3, timeout=1800),
         inst(F, "c11_matches_kind_independent", Q, "any filter x any message x any kind", "verdict independent of kind / at_load_time", covers=1, timeout=1800),
         inst(F, "c11_new_filter_defaults", Q, "criteria-free filter x any message", "empty filter matches all; negated none; disabled none", covers=1),
-        inst(F, "c11_char4_from_buf", Q, "buffers of 0..6 bytes", "literal id accepted iff exactly 4 bytes, bytes kept", covers=2),
+        inst(F, "c11_char4_from_buf_len4", Q, "4-byte buffer, any bytes", "literal id accepted, bytes kept (incl. NUL)", covers=1),
+        inst(F, "c11_char4_from_buf_len3", Q, "3-byte buffer", "short id refused", covers=1, timeout=300),
+        inst(F, "c11_char4_from_buf_len5", Q, "5-byte buffer", "over-long id refused", covers=1, timeout=300),
     ],
 }
